@@ -682,9 +682,20 @@ func trimStack(s string) string {
 	return strings.Join(keep, "\n")
 }
 
+// shippedKnobs holds the values the tree under test gives its tuning constants, read once before any
+// world touches them: the engine never carries a copy of an implementation constant.
+var shippedKnobs = func() map[string]int {
+	m := map[string]int{}
+	for _, n := range []string{"initNbMaxClauses", "incrNbMaxClauses", "incrPostponeNbMax", "lubyConstant"} {
+		if v, ok := solver.VerifGetKnob(n); ok {
+			m[n] = v
+		}
+	}
+	return m
+}()
+
 func setKnobs(k map[string]int) {
-	defaults := map[string]int{"initNbMaxClauses": 2000, "incrNbMaxClauses": 300, "incrPostponeNbMax": 1000, "lubyConstant": 512}
-	for name, d := range defaults {
+	for name, d := range shippedKnobs {
 		v, ok := k[name]
 		if !ok {
 			v = d
